@@ -82,6 +82,20 @@ Theorem C20_cov_fixed_point : forall (K : fieldT), field_ok K ->
 Proof. exact cov_structural. Qed.
 Print Assumptions C20_cov_fixed_point.
 
+(* KNOWN FINDING joint-gaussian-rounded-8-decimals: as coded, to_joint_gaussian rounds to 8 decimals (Run.rnd8 is
+   numpy's round(8)).  C20_mean_recursion / C20_cov_fixed_point are therefore stated for rnd = identity, and the
+   statement "the reported covariance is the structural-equation covariance" is REFUTED for the code as written:
+   one node with variance 10^-9 > 0 is reported with variance 0 (not positive definite; predict on x -> y then
+   raises LinAlgError).  harness/c20.py replays such networks on pgmpy in the `tiny` stream. *)
+Theorem C20_joint_rounding_refuted :
+  exists (cpds : list (@cpd QcF)) (vars : list nat) mu Sg mu' Sg',
+    to_joint_gaussian QcF rnd8 cpds vars = Some (mu, Sg) /\
+    to_joint_gaussian QcF (fun x => x) cpds vars = Some (mu', Sg') /\
+    (forall c, In c cpds -> Qclt (qq 0 1) (cvariance c)) /\
+    mget Sg 0 0 = qq 0 1 /\ mget Sg' 0 0 = qq 1 1000000000 /\ mget Sg 0 0 <> mget Sg' 0 0.
+Proof. exact joint_rounding_refuted. Qed.
+Print Assumptions C20_joint_rounding_refuted.
+
 (* what B and Omega are: Omega = diag(variances); column j of B holds, at the row of each parent
    (by name) of the j-th variable, that parent's coefficient, and zero in every other row *)
 Theorem C20_structure_entries : forall (K : fieldT) (cpds : list (cpd K)) vars B Om,
